@@ -59,10 +59,10 @@ check('C19', 'other',
       'Finite configuration space enumerated completely: postcondition of TechLib.__init__ on the five library texts (names expand, pin tables, implementation ports) and datasheet function of every family cell on all input combinations (truth tables by the real LogicSim).',
       'spec.datasheet is the oracle; runtime-evaluated contract, exhaustive, not a symbolic proof',
       'exhaustive evaluation of a postcondition over a finite configuration space', 'DESIGN.md 5-C19')
-check('C11', 'exploration',
-      'Bounded round-trip contract with spec-side Verilog/bench printers: port order, function for all valuations (enumerated), branch forks only insert forks, bench == Verilog; over generated netlists of all five libraries and many renderings.',
-      'the LALR parsers are outside the VC generator; meaning of the parsed circuit judged by the spec evaluator',
-      'bounded runtime round-trip contract (ghost netlist), complete over valuations', 'DESIGN.md 5-C11')
+check('C11', 'other',
+      'Proved (unbounded, one step): BenchTransformer.assignment adds exactly the described cell, its output fork and one input line per driver in order, keeping the circuit well-formed (constructors inlined on the object heap). Bounded round-trip contract with spec-side Verilog/bench printers: port order, function for all valuations (enumerated), branch forks only insert forks, bench == Verilog; over generated netlists of all five libraries and many renderings.',
+      'the LALR grammars, the Verilog transformer and the pin tables are outside the VC generator; meaning of the parsed circuit judged by the spec evaluator',
+      'contract-based deductive verification of the bench construction step + bounded runtime round-trip contract (ghost netlist), complete over valuations', 'DESIGN.md 5-C11')
 check('C14', 'exploration',
       'Bounded round-trip contract with a spec-side SDF printer: every IOPATH / INTERCONNECT entry at its [dataset, line, input polarity, output polarity], everything else zero; three CELL grouping styles x both branchforks.',
       'parser and numpy annotation outside the VC generator', 'bounded runtime round-trip contract (ghost entries)', 'DESIGN.md 5-C14')
